@@ -405,7 +405,9 @@ func (g *genState) fillPacket(k *Packet, label string, refs []string) {
 		}
 		if len(ts) > 0 {
 			sf := &Field{Kind: KSum, Name: g.fname(label + "_sum"), Type: rapid.SampledFrom(ts).Draw(t, label+"_sumtype"),
-				Alg: rapid.SampledFrom([]string{"CRC32", "SUM8", "XOR"}).Draw(t, label+"_alg"), AttrPrefixed: rapid.Bool().Draw(t, label+"_sumpre"), Doc: g.doc(label + "_sum")}
+				AttrPrefixed: rapid.Bool().Draw(t, label+"_sumpre"), Doc: g.doc(label + "_sum")}
+			// one algorithm name per value type: a registered service has one result type
+			sf.Alg = "CK" + strings.ToUpper(sf.Type)
 			pos := len(out)
 			if rapid.IntRange(0, 3).Draw(t, label+"_sumlast") == 0 {
 				pos = rapid.IntRange(0, len(out)).Draw(t, label+"_sumpos")
@@ -626,7 +628,12 @@ func (g *genState) matchFields(label string, refs []string) (*Field, *Field) {
 						maxLen = key.N
 					}
 					n := rapid.IntRange(1, maxLen).Draw(t, pl+"_klen")
-					ks = "\"" + rapid.StringOfN(rapid.SampledFrom([]rune("ABCDEFXYZ019")), n, n, -1).Draw(t, pl+"_kstr") + "\""
+					// a fixed-string key must survive trimming: no pad character ('0', blank) in it
+					alphabet := "ABCDEFXYZ019"
+					if key.Kind == KFixed {
+						alphabet = "ABCDEFXYZ19"
+					}
+					ks = "\"" + rapid.StringOfN(rapid.SampledFrom([]rune(alphabet)), n, n, -1).Draw(t, pl+"_kstr") + "\""
 				} else {
 					ks = fmt.Sprint(genKeyInt(t, key.Type, pl))
 				}
